@@ -227,8 +227,9 @@ def device(chk, prog, names):
             if block:
                 chk.check(not fills, key + "/no-refill", "a completed frame is painted again")
             else:
-                ok = len(fills) == 1 and isinstance(fills[0][2], T) and fills[0][2].is_const() and fills[0][2].val == H - 1 and \
-                    isinstance(fills[0][3], T) and fills[0][3].is_const() and fills[0][3].val == W
+                # the end position is compared as a linear pixel index: (H-1, W) and (H, 0) are the same point
+                ok = len(fills) == 1 and isinstance(fills[0][2], T) and fills[0][2].is_const() and \
+                    isinstance(fills[0][3], T) and fills[0][3].is_const() and fills[0][2].val * W + fills[0][3].val == H * W
                 chk.check(ok, key + "/fill-to-end", "new_frame does not paint up to the last pixel: %s" % (fills,))
                 if ok:
                     fl = fills[0][1]
@@ -269,7 +270,7 @@ def device(chk, prog, names):
                 ok = len(fills) == want and all(isinstance(f[1].fields[bi("color")], Agg) and f[1].fields[bi("color")].variant == 2 for f in fills)
                 ok = ok and fills[-1][2] is tm.sym("LINE", 64) and fills[-1][3] is tm.sym("PIXEL", 64)
                 if endf and ok:
-                    ok = fills[0][2].is_const() and fills[0][2].val == H - 1 and fills[0][3].val == W
+                    ok = fills[0][2].is_const() and fills[0][3].is_const() and fills[0][2].val * W + fills[0][3].val == H * W
                 chk.check(ok, key + "/paint-old-colour", "set_border must paint [last change, beam) with the previous colour: %s" % (fills,))
             bl = b2.fields[fi("beam_last")]
             ok = bl.fields[bi("line")] is tm.sym("LINE", 64) and bl.fields[bi("pixel")] is tm.sym("PIXEL", 64) and bl.fields[bi("color")].variant == 5 \
